@@ -11,10 +11,15 @@ Step ==
   /\ l <= Len(Trace) /\ l' = l + 1 /\ hi' = l
   /\ \/ Ev.ev = "Reset" /\ blocks' = Ev.blocks /\ pos' = 0 /\ k' = 0 /\ ev' = [ev |-> "R"] /\ UNCHANGED <<buf, recvOff, tlvOff, err>>
      \/ Ev.ev = "read" /\ Read(Ev.n, Ev.frames)
+     \/ Ev.ev = "stream" /\ UNCHANGED <<blocks, pos, k, buf, recvOff, tlvOff, err>> /\ ev' = [ev |-> "stream", frames |-> Ev.frames, stalled |-> Ev.stalled]
      \/ Ev.ev = "eof" /\ UNCHANGED <<blocks, pos, k, buf, recvOff, tlvOff, err>> /\ ev' = [ev |-> "eof", err |-> Ev.err]
 TSpec == TInit /\ [][Step]_tvars
 HiWater == TLCSet(7, IF TLCGet(7) < hi THEN hi ELSE TLCGet(7))
 Accepted == PrintT(<<"hiwater", TLCGet(7), Len(Trace)>>) /\ TLCGet(7) = Len(Trace)
 P_C11 == [][(ev'.ev = "read" => ReadOK(ev'.n, ev'.frames))
             /\ (ev'.ev = "eof" => (k = Len(blocks) /\ pos = Total(blocks) /\ ev'.err = ""))]_tvars
+\* transport stage: what a real socket transport (TCP, Unix stream, UDP) under a real link service handed on, end to end, for the blocks the
+\* peer sent / what the peer received for the packets queued: exactly those blocks, byte-identical, in order, nothing else, no stall
+T_C11xport == [][ev'.ev = "stream" => /\ ev'.stalled = -1 /\ Len(ev'.frames) = Len(blocks)
+                                      /\ \A x \in 1..Len(blocks) : ev'.frames[x].size = blocks[x].size /\ ev'.frames[x].hash = blocks[x].hash]_tvars
 ====
